@@ -21,7 +21,7 @@ def _ok() -> bool:
     if not os.path.exists(PY):
         return False
     r = subprocess.run(
-        [PY, '-c', 'import crosshair, z3, yaml, yatiml, jsonschema'],
+        [PY, '-c', 'import crosshair, z3, yaml, jsonschema'],
         stdout=subprocess.DEVNULL, stderr=subprocess.DEVNULL,
         env=dict(os.environ, PYTHONPATH=REPO))
     return r.returncode == 0
